@@ -122,12 +122,9 @@ reached through the public interface.  What the caller names through the setter 
 adapter; for it only "never forwards an action for an already-done agent" is demanded: a turn-based
 step whose action is for an agent reported done forwards nothing, touches neither the manager nor the
 episode, and answers with a MID time step in which every learning agent is present with reward 0
-(the documented fake step).  No "taint": the setter does not switch any clause off.
-
-`strict = true` is the property (the judge).  `strict = false` replaces, on the fake step's time step
-only, "the current player can still act" by "the current player is the first learning agent" — what the
-code as it is does (`next(iter(obs))`) and what is proved of the model; the difference is finding
-C15-K1. -/
+(the documented fake step) and which names a current player who can still act.  No "taint": the setter
+does not switch any clause off.  (This check found C15-K1 — the fake step named the first learning
+agent even when it was done — which has been repaired.) -/
 
 /-- every manager step recorded has no action for an agent reported done earlier in the episode
 (`R` of the ghost state just before that manager call) -/
@@ -144,7 +141,7 @@ def fakeDue (k : MKind) (gh : OSGhost) : Bool :=
   k == .turnBased && !gh.shouldReset && decide (gh.current ∈ gh.g.R)
 
 /-- the time step that answers an action that cannot be forwarded -/
-def c15Fake (strict : Bool) (n : Nat) (learning : Aid → Bool) (gh : OSGhost) (c : OSCall α ω ι) : Bool :=
+def c15Fake (n : Nat) (learning : Aid → Bool) (gh : OSGhost) (c : OSCall α ω ι) : Bool :=
   let learners := (List.range n).filter learning
   match c.res with
   | .error _ => false
@@ -159,8 +156,7 @@ def c15Fake (strict : Bool) (n : Nat) (learning : Aid → Bool) (gh : OSGhost) (
     -- the episode goes on
     decide (ts.stepType = .mid) &&
     -- the current player the adapter names can still act
-    (if strict then isLearner n learning ts.current && decide (ts.current ∉ gh.g.R)
-     else decide (some ts.current = learners.head?))
+    isLearner n learning ts.current && decide (ts.current ∉ gh.g.R)
 
 def osGhostNextX (gh : OSGhost) (call : OSIn α) (o : OSOut α ω ι) : OSGhost :=
   match call, o with
@@ -168,7 +164,7 @@ def osGhostNextX (gh : OSGhost) (call : OSIn α) (o : OSOut α ω ι) : OSGhost 
   | .setCurrent a, .set (.ok _) => { gh with current := a }
   | _, _ => gh
 
-def c15XItem [DecidableEq α] [DecidableEq ω] (strict : Bool) (k : MKind) (n : Nat) (learning : Aid → Bool)
+def c15XItem [DecidableEq α] [DecidableEq ω] (k : MKind) (n : Nat) (learning : Aid → Bool)
     (gh : OSGhost) (call : OSIn α) (o : OSOut α ω ι) : Bool :=
   match call, o with
   | .setCurrent a, .set r =>
@@ -181,48 +177,26 @@ def c15XItem [DecidableEq α] [DecidableEq ω] (strict : Bool) (k : MKind) (n : 
     -- for every action list, well-formed or not: never an action for an already-done agent
     noFwdDone gh.g c.mgrCalls &&
     (!callOK k ((List.range n).filter learning).length (some acts) ||
-      (if fakeDue k gh then c15Fake strict n learning gh c
+      (if fakeDue k gh then c15Fake n learning gh c
        else c15Call k n learning gh (some acts) c))
   | _, _ => false
 
-def c15XLoop [DecidableEq α] [DecidableEq ω] (strict : Bool) (k : MKind) (n : Nat) (learning : Aid → Bool) :
+def c15XLoop [DecidableEq α] [DecidableEq ω] (k : MKind) (n : Nat) (learning : Aid → Bool) :
     OSGhost → List (OSIn α) → List (OSOut α ω ι) → Bool
   | _, [], [] => true
   | gh, call :: calls, o :: os =>
-    c15XItem strict k n learning gh call o &&
-      c15XLoop strict k n learning (osGhostNextX gh call o) calls os
+    c15XItem k n learning gh call o && c15XLoop k n learning (osGhostNextX gh call o) calls os
   | _, _, _ => false
 
 /-- C15 (OpenSpiel) over histories of resets, steps and `current_player = …` -/
 def specC15X [DecidableEq α] [DecidableEq ω] (k : MKind) (n : Nat) (learning : Aid → Bool)
     (calls : List (OSIn α)) (tr : List (OSOut α ω ι)) : Bool :=
-  c15XLoop true k n learning {} calls tr
-
-/-- `specC15X` with the fake step's current player only pinned down (first learning agent), not
-required to be able to act -/
-def specC15Xw [DecidableEq α] [DecidableEq ω] (k : MKind) (n : Nat) (learning : Aid → Bool)
-    (calls : List (OSIn α)) (tr : List (OSOut α ω ι)) : Bool :=
-  c15XLoop false k n learning {} calls tr
-
-/-- the one thing `specC15Xw` leaves open: at every fake step the first learning agent (whom the code
-as it is names) has not been reported done -/
-def fakeHeadLive (k : MKind) (n : Nat) (learning : Aid → Bool) :
-    OSGhost → List (OSIn α) → List (OSOut α ω ι) → Bool
-  | gh, call :: calls, o :: os =>
-    (match call, o with
-     | .step acts, .ts _ =>
-       !(callOK k ((List.range n).filter learning).length (some acts) && fakeDue k gh) ||
-         (match ((List.range n).filter learning).head? with
-          | some a => decide (a ∉ gh.g.R)
-          | none => true)
-     | _, _ => true) && fakeHeadLive k n learning (osGhostNextX gh call o) calls os
-  | _, _, _ => true
+  c15XLoop k n learning {} calls tr
 
 /-- all the manager calls of a play-through, in order -/
 def mgrCallsOf : List (OSOut α ω ι) → List (Entry α ω ι)
   | [] => []
   | .ts c :: os => c.mgrCalls ++ mgrCallsOf os
   | .set _ :: os => mgrCallsOf os
-
 
 end Abmarl
